@@ -36,6 +36,10 @@
 #endif
 #if SKINNY_X86_CPUID
 #include <cpuid.h>
+/* Read an extended control register; encoded as bytes for old assemblers */
+#define SKINNY_XGETBV(index, lo, hi) \
+    __asm__ __volatile__ (".byte 0x0f, 0x01, 0xd0" \
+                          : "=a" (lo), "=d" (hi) : "c" (index))
 #endif
 
 #if defined(SKINNY_C_VERIF) && SKINNY_X86_CPUID
@@ -96,6 +100,19 @@ int _skinny_has_vec256(void)
     uint32_t ebx = 0;
     uint32_t ecx = 0;
     uint32_t edx = 0;
+    uint32_t xcr0 = 0;
+    /* Leaf 7 must exist, and the OS must have enabled saving of the
+       YMM registers (OSXSAVE and AVX set, XMM and YMM state in XCR0),
+       otherwise AVX2 instructions will fault when they are executed */
+    __cpuid(0, eax, ebx, ecx, edx);
+    if (eax < 7)
+        return 0;
+    __cpuid(1, eax, ebx, ecx, edx);
+    if ((ecx & (1 << 27)) == 0 || (ecx & (1 << 28)) == 0)
+        return 0;
+    SKINNY_XGETBV(0, xcr0, edx);
+    if ((xcr0 & 0x06) != 0x06)
+        return 0;
     __cpuid_count(7, 0, eax, ebx, ecx, edx);
     detected = (ebx & (1 << 5)) != 0;
 #endif
